@@ -166,6 +166,7 @@ class Interp:
         self.nstmts = 0
         self.invalid = None
         self.injected_calls = []
+        self.build_no = 0
 
     # ------------------------------------------------------------------
     def wrap(self, builder):
@@ -287,6 +288,8 @@ class Interp:
                 return
             self.crash_point()
             self.nstmts += 1
+            if self.sched is not None and self.mode == 'real':
+                self.sched.yield_point('stmt', st[0])
             if self.stmt_hook is not None:
                 self.stmt_hook(self, fr, st)
             self.exec_stmt(fr, st)
@@ -318,7 +321,8 @@ class Interp:
             fr.obs.append([kind, rel, norm_answer(kind, ans, sb)])
         elif op == 'bf':
             _, rel, fid, args, kwargs, cmp, catch = st[:7]
-            args, kwargs = unjson(args), unjson(kwargs)
+            args = unjson(resolve_step(args, self.build_no))
+            kwargs = unjson(resolve_step(kwargs, self.build_no))
             spelling = st[7] if len(st) > 7 else None
             path = sb.p(rel)
             func = self.make_func(fid)
@@ -344,7 +348,8 @@ class Interp:
             fr.obs.append(['bf', rel, typed_repr(r)])
         elif op == 'sb':
             _, fid, args, kwargs, catch = st[:5]
-            args, kwargs = unjson(args), unjson(kwargs)
+            args = unjson(resolve_step(args, self.build_no))
+            kwargs = unjson(resolve_step(kwargs, self.build_no))
             func = self.make_func(fid)
             fname = self.funcs[fid]['name']
             try:
@@ -591,28 +596,50 @@ class Interp:
             for i in range(len(bodies)):
                 run(i)
         crash = None
+        entries = []
         for i, sub in enumerate(frames):
             e = results[i]
             if isinstance(e, CrashError):
                 crash = e
-            fr.obs.append(['th', i, sub.obs,
-                           None if e is None else '!' + type(e).__name__])
+            entries.append([sub.obs,
+                            None if e is None else '!' + type(e).__name__])
+        if len(st) > 2 and st[2] == 'sym':
+            # identical bodies racing for the same key: who wins is not
+            # specified, the multiset of outcomes is
+            entries.sort(key=lambda x: digest(x))
+            fr.obs.append(['th-sym', entries])
+        else:
+            for i, en in enumerate(entries):
+                fr.obs.append(['th', i] + en)
         if crash is not None:
             raise crash
 
 
-def _mutate_value(v):
+def _mutate_value(v, top=True):
+    """Mutate every mutable container reachable from ``v`` in place."""
     if isinstance(v, list):
-        if v and isinstance(v[0], (list, dict)):
-            _mutate_value(v[0])
+        for x in list(v):
+            _mutate_value(x, False)
         v.append('MUT')
     elif isinstance(v, dict):
+        for x in list(v.values()):
+            _mutate_value(x, False)
         v['MUT'] = 1
     elif isinstance(v, tuple):
         for x in v:
-            if isinstance(x, (list, dict)):
-                _mutate_value(x)
-                break
+            _mutate_value(x, False)
+
+
+def resolve_step(v, n):
+    """{"__step__": [v0, v1, ...]} -> the value for build number n."""
+    if isinstance(v, dict):
+        if '__step__' in v:
+            alts = v['__step__']
+            return resolve_step(alts[n % len(alts)], n)
+        return {k: resolve_step(x, n) for k, x in v.items()}
+    if isinstance(v, list):
+        return [resolve_step(x, n) for x in v]
+    return v
 
 
 def unjson(v):
